@@ -37,9 +37,18 @@ const (
 	c04long  = 6 * time.Minute  // every buffered intent is expired and reaped afterwards
 )
 
-var c04idx = map[string]int{"a": 0, "a1": 0, "a2": 1, "b": 2, "c": 3, "d": 4, "e": 5, "f": 6}
+var c04idx = map[string]int{"a": 0, "a1": 0, "a2": 1, "b": 2, "c": 3, "d": 4, "e": 5, "f": 6, "g": 7, "h": 8, "i": 9, "j": 10}
 
-var c04stateOf = map[string]string{"b": "unknown", "c": "alive", "d": "leaving", "e": "left", "f": "failed"}
+var c04stateOf = map[string]string{"b": "unknown", "c": "alive", "d": "leaving", "e": "left", "f": "failed",
+	"g": "failed+stale-join", "h": "failed+stale-leave", "i": "alive+stale-join", "j": "alive+stale-leave"}
+
+// c04stale: members whose record was CREATED FROM A BUFFERED INTENT (time 4) and
+// has since moved on to status time 6; the consumed buffer entry is still there
+// (entries are only removed by the reaper). g/h have failed since, i/j are alive.
+var c04stale = map[string]struct {
+	leave  bool // the buffered intent is a leave (else a join)
+	failed bool
+}{"g": {false, true}, "h": {true, true}, "i": {false, false}, "j": {true, false}}
 
 type c04ev struct {
 	lt   uint64
@@ -174,13 +183,14 @@ type c04model struct {
 	evClock uint64
 	qClock  uint64
 	last    map[string]int  // intent message -> 1 + epoch of its node when it was last re-broadcast
+	preset  map[string]bool // intent messages the set-up delivered (and the node re-broadcast) before the history
 	seen    map[string]bool // event / query message re-broadcast before
 	clearT  int64           // virtual time of the last expiry of all buffered intents
 }
 
 func c04newModel(self string, n, nq int, known []string) *c04model {
 	m := &c04model{self: self, n: uint64(n), nq: uint64(nq), lt: map[string]uint64{}, intent: map[string]uint64{}, epoch: map[string]int{},
-		evClock: 1, qClock: 1, last: map[string]int{}, seen: map[string]bool{}}
+		evClock: 1, qClock: 1, last: map[string]int{}, preset: map[string]bool{}, seen: map[string]bool{}}
 	for _, k := range known {
 		m.lt[k] = 5
 	}
@@ -289,7 +299,7 @@ func (c *c04node) fail(sig, format string, a ...interface{}) {
 	}
 }
 
-func c04new(name string, idx int, n, nq int, peers []string, hist *[]string) *c04node {
+func c04new(name string, idx int, n, nq int, peers []string, hist *[]string, stale ...string) *c04node {
 	node, err := world.NewNode(name, idx, func(c *serf.Config) { c.EventBuffer = n; c.QueryBuffer = nq })
 	if err != nil {
 		panic(err)
@@ -315,14 +325,44 @@ func c04new(name string, idx int, n, nq int, peers []string, hist *[]string) *c0
 		known = append(known, p)
 	}
 	msg(c04join(name, 5))
+	wantIntents := map[string]string{}
+	want := map[string]string{name: "alive", "c": "alive", "d": "leaving", "e": "left", "f": "failed"}
+	for _, x := range stale {
+		sp := c04stale[x]
+		if sp.leave {
+			msg(c04leave(x, 4, false)) // buffered: x is not known yet
+			wantIntents[x] = fmt.Sprintf("%d:4", serf.VMsgLeave)
+		} else {
+			msg(c04join(x, 4))
+			wantIntents[x] = fmt.Sprintf("%d:4", serf.VMsgJoin)
+		}
+		ml(x)              // record created from the buffered intent (status time 4)
+		msg(c04join(x, 6)) // moved on: alive at 6
+		want[x] = "alive"
+		if sp.failed {
+			node.Events().NotifyLeave(node.MLNode(x, c04idx[x], nil))
+			want[x] = "failed"
+		}
+		known = append(known, x)
+	}
 	vsched.Quiesce()
-	node.Outbox()
+	preOut := node.Outbox()
 	node.DrainEvents()
 	c := &c04node{n: node, m: c04newModel(name, n, nq, known), hist: hist}
+	// the set-up is part of the history: what it re-broadcast counts for epoch 0
+	for _, o := range preOut {
+		switch c04parse(o).kind {
+		case "join", "leave", "leave-prune":
+			c.m.last[string(o)] = 1
+			c.m.preset[string(o)] = true
+		}
+	}
+	for _, x := range stale {
+		c.m.intent[x] = 4
+	}
 	// the set-up must have produced one member per state; the recorded status
 	// times (5 on the unchanged tree) are taken over as the model's starting point
 	st := serf.VDump(node.S)
-	want := map[string]string{name: "alive", "c": "alive", "d": "leaving", "e": "left", "f": "failed"}
 	for _, p := range peers {
 		want[p] = "alive"
 	}
@@ -333,8 +373,14 @@ func c04new(name string, idx int, n, nq int, peers []string, hist *[]string) *c0
 		c.m.lt[x.Name] = x.StatusLTime
 		delete(want, x.Name)
 	}
-	if len(want) != 0 || len(st.Intents) != 0 {
-		panic(fmt.Sprintf("c04: preset failed: missing %v, intents %v", want, st.Intents))
+	for _, in := range st.Intents {
+		if wantIntents[in.Node] != fmt.Sprintf("%d:%d", in.Type, in.LTime) {
+			panic(fmt.Sprintf("c04: preset failed: unexpected buffered intent %+v", in))
+		}
+		delete(wantIntents, in.Node)
+	}
+	if len(want) != 0 || len(wantIntents) != 0 {
+		panic(fmt.Sprintf("c04: preset failed: missing members %v, missing buffered intents %v", want, wantIntents))
 	}
 	c.m.clearT = vsched.Elapsed()
 	return c
@@ -382,7 +428,7 @@ func (c *c04node) deliver(b []byte) (out [][]byte, requeued bool) {
 			}
 			if m.last[key] == e+1 {
 				c.fail(fmt.Sprintf("re-broadcast twice: %s intent about %s", oi.kind, ocls),
-					"%s was re-broadcast a second time on delivery of %s although the node's record of %s was not erased and no buffered intent expired in between", oi.desc, in.desc, oi.node)
+					"%s was re-broadcast a second time on delivery of %s although the node's record of %s was not erased and no buffered intent expired in between%s", oi.desc, in.desc, oi.node, map[bool]string{true: " (the first re-broadcast happened while the start state was built: the set-up delivered this message once)", false: ""}[m.preset[key] && e == 0])
 			}
 			m.last[key] = e + 1
 		case "event":
@@ -542,7 +588,7 @@ func init() {
 	vc.Register(&vc.Check{
 		ID:    "C04",
 		Level: "model_checking",
-		Rule:  "histories: every sequence WITH repetition of deliveries to one real Serf node whose member table was filled through the real handlers with one member per state (b unknown, c alive, d leaving, e left, f failed, the node itself alive; recorded status time 5); shorter sequences are checked as prefixes (oracle after every step). intents/<state> (one scenario per member X; quick length 4): join intents about X at times {5,6,7}, leave intents at {5,6,7}, pruning leave intents at {6,7} (equal/higher than the record, lower/equal/higher than a buffered intent), state-sync merges carrying X as joined at 6 / as left after 5, memberlist alive notification about X, a 6 min tick (expires buffered intents; for b also a 40 s tick that must not). Thorough: 'wide' (length 4: also time 4, prune at 5, 40 s tick, memberlist dead notification) and 'deep' (length 5 on 10-11 letters). events/queries for equal event and query buffer sizes 2 and 4 (length 4; thorough length 5 for buffer 2): user events (2 names, times 0,1,N,N+1,2N+1 colliding in slots), queries (ids 7,8,9, slot collisions, NoBroadcast flag, a filter excluding the node), merges carrying events or moving the event/query clock, the node's own UserEvent/Query and the echo of it; events/queries with UNEQUAL rings (EventBuffer 8 / QueryBuffer 2 and 2 / 8; length 4, thorough 5): times 0, 1, r+1, 2r+1 (slot collisions of the ring under test, size r) and o+1, o+r+1 (around the window edge of the other ring, size o), merges moving the clock past both edges (2r+2, 2o+2), the node's own UserEvent/Query. mixed (length 4 quick, 5 thorough; thorough also length 6 on 7 letters): letters of every kind over all members incl. merges naming everybody. Each step is Delegate.NotifyMsg / MergeRemoteState / a local call on the real node, run to quiescence, then the broadcast queue is drained and queued copies are counted per message (byte identity). closure: two real nodes a1, a2 with the same member table (knowing each other), every ordered pair (thorough: also triples on a reduced alphabet) of 70 messages (intents about a1,a2,b..f at 5,6,7, events, queries) injected into a1 (or into both), then each node's queue is fed to the other until both are empty; plus pairs of events/queries at times 1,3,5,9,11 with rings 8/2 and 2/8. A state is the canonical private state after a history. non-trivial = history/closure in which at least one delivery was NOT re-broadcast (duplicate, stale or refused message)",
+		Rule:  "histories: every sequence WITH repetition of deliveries to one real Serf node whose member table was filled through the real handlers with one member per state (b unknown, c alive, d leaving, e left, f failed, the node itself alive; recorded status time 5); shorter sequences are checked as prefixes (oracle after every step). intents/<state> (one scenario per member X; quick length 4): join intents about X at times {5,6,7}, leave intents at {5,6,7}, pruning leave intents at {6,7} (equal/higher than the record, lower/equal/higher than a buffered intent), state-sync merges carrying X as joined at 6 / as left after 5, memberlist alive notification about X, memberlist dead notification (flaps), a 6 min tick (expires buffered intents; for b also a 40 s tick that must not). intents/<state>+stale-join|leave (4 more start states, quick length 4): a member whose record was created from a buffered join resp. leave intent at time 4 and has moved on to status time 6 (alive, or failed since), with the consumed buffer entry still parked: joins at {4,5,6,7}, leaves at {5,7}, pruning leave at 7, merges carrying it as joined at 5 / left after 4, alive and dead notifications (flaps), 6 min tick. The set-up deliveries count as part of every history (what they re-broadcast is already used up). Thorough: 'wide' (length 4: also time 4, prune at 5, 40 s tick) and 'deep' (length 5 on 10-11 letters). events/queries for equal event and query buffer sizes 2 and 4 (length 4; thorough length 5 for buffer 2): user events (2 names, times 0,1,N,N+1,2N+1 colliding in slots), queries (ids 7,8,9, slot collisions, NoBroadcast flag, a filter excluding the node), merges carrying events or moving the event/query clock, the node's own UserEvent/Query and the echo of it; events/queries with UNEQUAL rings (EventBuffer 8 / QueryBuffer 2 and 2 / 8; length 4, thorough 5): times 0, 1, r+1, 2r+1 (slot collisions of the ring under test, size r) and o+1, o+r+1 (around the window edge of the other ring, size o), merges moving the clock past both edges (2r+2, 2o+2), the node's own UserEvent/Query. mixed (length 4 quick, 5 thorough; thorough also length 6 on 7 letters): letters of every kind over all members incl. merges naming everybody. Each step is Delegate.NotifyMsg / MergeRemoteState / a local call on the real node, run to quiescence, then the broadcast queue is drained and queued copies are counted per message (byte identity). closure: two real nodes a1, a2 with the same member table (knowing each other), every ordered pair (thorough: also triples on a reduced alphabet) of 70 messages (intents about a1,a2,b..f at 5,6,7, events, queries) injected into a1 (or into both), then each node's queue is fed to the other until both are empty; plus pairs of events/queries at times 1,3,5,9,11 with rings 8/2 and 2/8. A state is the canonical private state after a history. non-trivial = history/closure in which at least one delivery was NOT re-broadcast (duplicate, stale or refused message)",
 		Assumptions: []string{
 			"'retention window' (epoch) of an intent about X ends when the node legitimately forgets it: X's member record is erased by an accepted pruning leave (the same message is then new again), or the buffered intent about an unknown X expires (RecentIntentTimeout); for user events and queries it ends when the Lamport time leaves the node's window for that kind (event clock - EventBuffer for user events, query clock - QueryBuffer for queries). Erasure by the reaper after Tombstone/Reconnect timeouts (24 h) is not explored",
 			"only copies of a delivered message count as re-broadcasts; the node's own originations (UserEvent, Query, refuting join about itself) do not",
@@ -561,6 +607,7 @@ type c04scn struct {
 	depth  int
 	acts   []c04act
 	member string
+	stale  []string // extra start-state members (c04stale)
 }
 
 // c04memberAlphabet: letters about one member. level quick (depth 4), wide (every
@@ -592,9 +639,42 @@ func c04memberAlphabet(x string, level string) []c04act {
 	}
 	if x != "a" {
 		acts = append(acts, c04act{kind: "mljoin", node: x, label: "alive(" + x + ")"})
-		if level == "wide" {
+		if level != "deep" {
 			acts = append(acts, c04act{kind: "mlleave", node: x, label: "dead(" + x + ")"})
 		}
+	}
+	return acts
+}
+
+// c04staleAlphabet: letters about a member with a stale buffered intent at 4 and
+// real status time 6: intents around both values, flaps (alive/dead), merges
+// between the two values, the 6 min tick that expires the stale entry.
+func c04staleAlphabet(x string, level string) []c04act {
+	var acts []c04act
+	jl, ll, pl := []uint64{4, 5, 6, 7}, []uint64{5, 7}, []uint64{7}
+	switch level {
+	case "wide":
+		ll, pl = []uint64{4, 5, 6, 7}, []uint64{5, 6, 7}
+	case "deep":
+		jl, ll, pl = []uint64{5, 6, 7}, []uint64{5, 7}, nil
+	}
+	for _, l := range jl {
+		acts = append(acts, c04join(x, l))
+	}
+	for _, l := range ll {
+		acts = append(acts, c04leave(x, l, false))
+	}
+	for _, l := range pl {
+		acts = append(acts, c04leave(x, l, true))
+	}
+	acts = append(acts, c04merge(x+" joined at 5", map[string]uint64{x: 5}, nil, nil, 1, 1),
+		c04act{kind: "mljoin", node: x, label: "alive(" + x + ")"}, c04act{kind: "mlleave", node: x, label: "dead(" + x + ")"},
+		c04act{kind: "advlong", label: "tick(6m)"})
+	if level != "deep" {
+		acts = append(acts, c04merge(x+" left after 4", map[string]uint64{x: 4}, []string{x}, nil, 1, 1))
+	}
+	if level == "wide" {
+		acts = append(acts, c04act{kind: "adv", label: "tick(40s)"})
 	}
 	return acts
 }
@@ -676,6 +756,16 @@ func c04run(ctx *vc.Ctx) {
 			scs = append(scs, c04scn{name: "intents/" + st, n: 4, depth: 4, acts: c04memberAlphabet(x, "quick"), member: x})
 		}
 	}
+	// members whose record was created from a buffered intent that is still parked
+	for _, x := range []string{"g", "h", "i", "j"} {
+		st := c04stateOf[x]
+		if th {
+			scs = append(scs, c04scn{name: "intents/" + st + "/wide", n: 4, depth: 4, acts: c04staleAlphabet(x, "wide"), member: x, stale: []string{x}})
+			scs = append(scs, c04scn{name: "intents/" + st + "/deep", n: 4, depth: 5, acts: c04staleAlphabet(x, "deep"), member: x, stale: []string{x}})
+		} else {
+			scs = append(scs, c04scn{name: "intents/" + st, n: 4, depth: 4, acts: c04staleAlphabet(x, "quick"), member: x, stale: []string{x}})
+		}
+	}
 	for _, n := range []int{2, 4} {
 		de := d
 		if n == 4 {
@@ -729,7 +819,7 @@ func c04history(ctx *vc.Ctx, scn *vc.Scenario, sc c04scn, seq []int) {
 		if nq == 0 {
 			nq = sc.n
 		}
-		c := c04new("a", 0, sc.n, nq, nil, &hist)
+		c := c04new("a", 0, sc.n, nq, nil, &hist, sc.stale...)
 		for _, ai := range seq {
 			a := sc.acts[ai]
 			hist = append(hist, a.label)
